@@ -1,18 +1,59 @@
 HOOK_COMMITS = []
 NOT_APPLICABLE = {}
 _NOTE = ("Bounded: TLC explores the specification exhaustively only inside the small constants of the MC_*.cfg files; beyond them the claim rests on "
-         "trace validation of recorded executions (sampled, seeded). Trusted: TLC, the Json/IOUtils community modules, rustc/std, the unicode-width / "
-         "unicode-linebreak / smawk crates (oracles), the harness's recording code.")
+         "trace validation of recorded executions (exhaustive small alphabets + seeded structured random inputs, threshold-directed widths). Trusted: TLC, "
+         "the Json/IOUtils community modules, rustc/std (its string operations are modelled in StdStr.tla and that model is re-checked against std on every "
+         "run), the unicode-width / unicode-linebreak / smawk crates (oracles), the harness's recording code. Judgement is made only by TLC from spec/Props*.tla.")
+_T = "TLA+ spec + TLC model checking + TLC trace validation of recorded calls of the real crate"
+def _t(level, technique=_T, note=_NOTE):
+    return {"level": level, "note": note, "technique": technique}
 TEXTS = {
- "C10": {"level": "TLC checks the escape-scanner specification against the declarative strip-and-sum definition on all short strings; all 1,112,064 scalars "
-                  "(thorough; BMP + sample in quick) and generated strings are executed on the real display_width in both feature builds and every result is "
-                  "judged by TLC against spec/Props.tla.",
-         "note": _NOTE, "technique": "TLA+ spec + TLC model checking + trace validation of real display_width calls (both feature sets)"},
- "C11": {"level": "find_words of both separators is recorded (word/whitespace offsets by pointer arithmetic, cached widths) on exhaustive small alphabets and "
-                  "random lines with ANSI sequences in every position; TLC judges losslessness, shape and the exact boundary sets (ASCII rule; UAX#14 "
-                  "opportunities from the oracle, filtered and mapped as the statement says).",
-         "note": _NOTE, "technique": "TLA+ spec + TLC model checking + trace validation of real find_words calls"},
- "C12": {"level": "split_points / split_words / break_apart / break_words are recorded with offsets on exhaustive small alphabets and random words; TLC judges "
-                  "every clause of the statement (lossless, split points, penalty rule, bounded, maximal, escape-safe, cached widths, pass-through).",
-         "note": _NOTE, "technique": "TLA+ spec + TLC model checking + trace validation of real split/break calls"},
+ "C01": _t("Every wrap/fill call recorded from the real crate (texts with multi-byte, zero-width, wide, control characters, well-formed and malformed ANSI "
+           "sequences, LF/CRLF paragraphs; widths 0..usize::MAX; both algorithms, separators, all splitters incl. hyphen-inserting custom ones; both "
+           "feature builds) is judged by TLC: an existential, backtracking cursor walk must explain each line as indent + in-order slice (+ inserted "
+           "hyphen), borrowed lines must sit at their pointer offset, only spaces / line-ending characters may be skipped, and the space-at-end "
+           "exception is checked against the specification's words."),
+ "C02": _t("First-fit wrap/fill calls on texts with well-formed escape sequences, many paragraphs and unequal indents are judged by TLC: display "
+           "width of every line (specification DW, oracle widths) <= width, or the remainder is a single unnarrowable fragment per the statement."),
+ "C03": _t("wrap_optimal_fit on integer fragments (n <= 60; exhaustive tiny domain + random small/medium/large-exact; default and random penalties; 1- and "
+           "2-element width lists): TLC compares the cost of the returned arrangement with the minimum (accumulator DP, and exhaustive over all 2^(n-1) "
+           "arrangements for n <= 9) and with first-fit; at text level the arrangement is derived existentially from wrap's lines per paragraph."),
+ "C04": _t("All public functions are driven with an adversarial alphabet, widths 0..usize::MAX, all built-in option combinations, arbitrary usize penalties, "
+           "finite and non-finite f64 fragment widths under catch_unwind and a watchdog; a panic/hang/overflow error is data and TLC's verdict is on the "
+           "recorded status (only wrap_columns with zero columns may fail)."),
+ "C05": _t("(i) wrap events: every paragraph whose display width plus indent fits must come back as exactly indent + paragraph without trailing spaces; "
+           "(ii) the cfg(fuzzing) entry points are used to run shortcut and general path on the same line / text with widths swept across the byte length; "
+           "TLC requires identical results."),
+ "C06": _t("Fragment-level calls of both algorithms with arbitrary finite f64 triples; the harness logs only pointer-derived element offsets and lengths of "
+           "the returned slices; TLC judges the pure partition shape."),
+ "C07": _t("Fragment level (integers and dyadic eighths, width lists of length 0-3): TLC requires the returned arrangement to be greedy by the declarative "
+           "definition and equal to the specification's first-fit; text level: per paragraph, some reading of the lines as an arrangement of the "
+           "specification's fragments must be greedy for the widths of the indents actually rendered."),
+ "C08": _t("wrap events: every line starts with the applicable indent (incl. empty / whitespace-only paragraphs); pairs of calls whose indents differ only "
+           "in characters (equal display width and emptiness) must agree on everything after the indent."),
+ "C09": _t("Composite events record wrap(a), wrap(b), wrap(a2), wrap(a+nl+b), wrap(a2+nl+b), fill and the CRLF twins; TLC re-checks the argument relation and "
+           "judges prefix, independence, equality with wrap(b) for empty indents, line count, fill = join, LF->CRLF equivariance."),
+ "C10": _t("All 1,112,064 scalars (thorough; BMP + astral sample in quick) and strings over a mixed alphabet incl. malformed sequences are run through the real "
+           "display_width in both feature builds; TLC judges per-scalar width vs the oracle table / cut-off rule, <= UTF-8 length, the declarative "
+           "strip-and-sum definition on well-formed strings, additivity and insertion invariance."),
+ "C11": _t("find_words of both separators is recorded with pointer-derived offsets on exhaustive small alphabets and random lines with ANSI sequences in every "
+           "position; TLC judges losslessness, shape, cached widths and the exact boundary sets (ASCII rule; UAX#14 opportunities from the oracle, "
+           "filtered and mapped as the statement says, none inside a sequence)."),
+ "C12": _t("split_points / split_words / break_apart / break_words recorded with offsets on exhaustive small alphabets and random words; TLC judges every "
+           "clause (lossless, split points, penalty rule, non-empty, bounded, maximal, escape-safe, cached widths, pass-through)."),
+ "C13": _t("Plain texts are coloured by the harness (SGR / OSC-8 before, inside, after words); TLC re-checks strip(coloured) = plain and the attachment "
+           "precondition itself, then requires stripped lines of the coloured wrap to equal the plain wrap and every sequence to survive whole."),
+ "C14": _t("fill applied to its own output on exhaustive small texts and random texts; the side conditions of the statement (no forced break, no overflow) are "
+           "evaluated by TLC from the specification's words and the first result."),
+ "C15": _t("fill -> unfill round trips over a word vocabulary, all widths, indent pairs from the prefix alphabet, both algorithms, LF/CRLF, with/without "
+           "trailing ending (precondition re-checked by TLC); unfill on arbitrary strings for the structural half."),
+ "C16": _t("refill(fill(t,o1),o2) vs fill(t,o2 with o1's indents) for all pairs of widths / endings / algorithms; precondition (>= 2 lines, breaks at spaces) "
+           "re-checked by TLC."),
+ "C17": _t("fill_inplace on exhaustive small texts and random multi-paragraph texts at all widths; TLC judges same length, only space->newline changes and "
+           "equality of the trimmed lines with wrap under the documented options."),
+ "C18": _t("dedent on exhaustive small texts over {a, space, tab, LF, CR} and random margin texts; TLC compares with the declarative longest-common-margin "
+           "definition and judges idempotence and dedent(indent(s,p)) = dedent(s) where the statement claims them."),
+ "C19": _t("indent on exhaustive small texts and random texts with many prefixes; TLC compares with the declarative per-line definition."),
+ "C20": _t("wrap_columns plus the reference wrap call at the specification's column width; TLC judges the row structure (gaps, column-major cells, padding), "
+           "equal row widths when nothing protrudes, and that only zero columns may fail."),
 }
